@@ -9,7 +9,13 @@ exec 9>/verif/.repo.lock
 flock -x 9
 if ! git -C /repo diff --quiet; then echo "trymutant: /repo has local changes; refusing"; exit 2; fi
 if ! git -C /repo apply "$patch"; then echo "trymutant: patch does not apply"; exit 2; fi
-trap 'git -C /repo checkout -- . ; git -C /repo clean -fdq' EXIT
+ids="$*"
+restore() {
+  git -C /repo checkout -- . ; git -C /repo clean -fdq
+  # regenerate facts / evidence for the unchanged tree
+  for id in $ids; do VERIF_HOLDING_REPO_LOCK=1 timeout 1500 ./check "$id" quick >/dev/null 2>&1 || echo "trymutant: WARNING $id not green after undo"; done
+}
+trap restore EXIT
 for id in "$@"; do
   echo "== $id with $(basename "$patch")"
   VERIF_HOLDING_REPO_LOCK=1 timeout 1500 ./check "$id" "${TIER:-quick}" 2>&1 | tail -4
